@@ -782,9 +782,10 @@ def ia32_arpl(obj, Mod, REG, RM, data, _inv):
 
 @ispec_ia32("*>[ {63} /r ]", mnemonic="MOVSXD")
 def ia32_movsxd(obj, Mod, REG, RM, data):
-    op1 = getregR(obj, REG, 64)
     # force REX.W=0 for op2 decoding:
     W, R, X, B = getREX(obj)
+    # without REX.W the destination has the (16/32-bit) operand size:
+    op1 = getregR(obj, REG, 64 if W == 1 else (obj.misc["opdsz"] or 32))
     op2, data = getModRM(obj, Mod, RM, data, REX=(0, R, X, B))
     obj.operands = [op1, op2]
     obj.type = type_data_processing
